@@ -141,6 +141,23 @@ def run_c16(tier, seed):
             distinct.add(hist_lines[j])
             k = kinds_of(c["sent"])
             bykind[k] = bykind.get(k, 0) + 1
+    # static tie: every call into the application's handler is made under one exclusive lock (access table regenerated
+    # from the source by the lockset translator; the same table C14 checks)
+    import lockprops
+    rows, coq_ok, co = lockprops.regenerate_table(chk, "HandlerAccess")
+    hrows = [r for r in (rows or []) if r["loc"] == "handler-state"]
+    common = None
+    for r in hrows:
+        ex = {k for k, v in r["locks"].items() if v}
+        common = ex if common is None else (common & ex)
+    static_ok = bool(hrows) and bool(common) and coq_ok
+    if not static_ok and not chk.violations:
+        bad = [r for r in hrows if not any(r["locks"].values())][:3]
+        chk.violation("handler-calls-not-serialized", "the access table regenerated from the source shows calls into the command handler that are not all made under one exclusive lock "
+                      "(%d handler call sites, common exclusive locks: %s; e.g. %s); no non-linearizable history was recorded in %d histories" % (
+                          len(hrows), sorted(common or []), [(r["where"], r["locks"]) for r in bad], len(hist_lines)),
+                      dict(broken="GRG.HandlerAccess.handler_table_ok: handler-state rows of coq/gen/HandlerAccess.v under one exclusive lock", rows=hrows[:20]), True)
+    chk.coverage["handler_call_sites_under_command_lock"] = len(hrows) if static_ok else 0
     if races and not chk.violations:
         chk.violation("data-race", "race detector report during concurrent commands: " + races[0][:600].replace("\n", " | "), dict(report=races[0]))
     if broken and not chk.violations:
